@@ -37,10 +37,11 @@ static void check_case(const e3::Entry& e, const std::string& F, const np::Heade
 	std::string FU = relabel(F, h, subset, &hu);
 	std::set<std::string> unknown;
 	for (auto t : subset) unknown.insert(hu.types[t]);
-	for (int mode = 3; mode >= 0; mode--) {
+	for (int mode = 5; mode >= 0; mode--) {
 		const int raw = mode & 1;
 		const bool via_copy = (mode & 2) != 0; // the loaded model is copied and the COPY is saved: it must protect unknown blocks just the same
-		J cj = case_of(e, h, subset, raw == 1).set("via_copy", via_copy);
+		const bool reorder = (mode & 4) != 0;  // SetShapeOrder with the reversed shape names before the save: nothing may move while unknown blocks are present
+		J cj = case_of(e, h, subset, raw == 1).set("via_copy", via_copy).set("reorder", reorder);
 		vf::set_inflight(cj.dump());
 		st.add("evaluations");
 		std::string what = e.keyname + " with {" + subset_str(h, subset) + "} unknown, " + (raw ? "raw" : "default") + " save" + (via_copy ? " of a copy of the model" : "");
@@ -48,6 +49,15 @@ static void check_case(const e3::Entry& e, const std::string& F, const np::Heade
 		int rc = s1::load(n, FU);
 		if (rc != 0) { st.violation("load-fails", what + ": Load returns " + std::to_string(rc), cj); continue; }
 		if (!n.HasUnknown()) { st.violation("unknown-not-detected", what + ": HasUnknown() is false", cj); continue; }
+		if (reorder) {
+			std::vector<std::string> names;
+			for (auto sh : n.GetShapes()) names.push_back(sh->name.get());
+			if (names.size() < 2) continue;
+			std::reverse(names.begin(), names.end());
+			n.SetShapeOrder(names);
+			st.add("shape_orders_applied");
+			what += ", after SetShapeOrder(reversed)";
+		}
 		NifFile ncopy;
 		if (via_copy) ncopy = n;
 		std::string O = s1::save(via_copy ? ncopy : n, raw == 1);
